@@ -1045,6 +1045,11 @@ func normalizeFields(fields []InField, doc map[string]any) map[string]any {
 }
 
 func normalizeValue(f InField, v any) any {
+	if m, ok := v.(map[string]any); ok && len(m) == 1 {
+		if raw, ok := m["$raw"].(string); ok {
+			v = raw // a plain scalar of the document: its text
+		}
+	}
 	switch f.Type {
 	case "int":
 		return toInt(v)
